@@ -71,7 +71,9 @@ pub fn run(
     // valid intersection vertices should appear both as terminal vertices and lookup vertices in both trees
     // - being a "terminal vertex" places them at the shared meeting location, terminus of each tree somewhere
     // - being a "lookup vertex" means we can use them for backtracking forward and reverse paths
-    for (vertex_id, fwd_branch) in fwd_tree {
+    // candidates are offered in vertex id order: the iteration order of the tree (a HashMap)
+    // changes from run to run and decides which of several equal-cost candidates is popped first
+    for (vertex_id, fwd_branch) in fwd_tree.iter().sorted_by_key(|(vertex_id, _)| **vertex_id) {
         if let Some(rev_branch) = rev_vertices.get(&fwd_branch.terminal_vertex) {
             if rev_vertices.contains_key(&vertex_id) {
                 let total_cost =
